@@ -502,7 +502,212 @@ def r37(ctx, methods):
         ctx.bad(rid, f, "no job ever receives an exe_dir")
 
 
+# ------------------------------------------------------------------ R-3.8
+class _Kinds:
+    """Tiny representation inference for path numbers: 'int' (Path.path_number)
+    versus 'str' (their text form used in restart.toml), through lists, tuples,
+    comprehensions, self-method returns and containers filled by append."""
+
+    def __init__(self, tree, methods):
+        self.tree = tree
+        self.methods = methods
+        self._ret = {}
+        self._attr = {}
+        self._busy = set()
+        self._keys = {}
+
+    @staticmethod
+    def merge(a, b):
+        if a == b or b == "?":
+            return a
+        if a == "?":
+            return b
+        if isinstance(a, tuple) and isinstance(b, tuple) and a[0] == b[0]:
+            if a[0] == "list":
+                return ("list", _Kinds.merge(a[1], b[1]))
+            if a[0] == "tuple" and len(a[1]) == len(b[1]):
+                return ("tuple", tuple(_Kinds.merge(x, y) for x, y in zip(a[1], b[1])))
+        return "?"
+
+    @staticmethod
+    def elem(k):
+        if isinstance(k, tuple) and k[0] == "list":
+            return k[1]
+        return "?"
+
+    def ret(self, name):
+        if name in self._ret:
+            return self._ret[name]
+        if name in self._busy or name not in self.methods:
+            return "?"
+        self._busy.add(name)
+        f = self.methods[name]
+        k = None
+        for r in [n for n in walk_local(f) if isinstance(n, ast.Return) and n.value is not None]:
+            kk = self.kind(f, r.value, {})
+            k = kk if k is None else self.merge(k, kk)
+        self._busy.discard(name)
+        self._ret[name] = k or "?"
+        return self._ret[name]
+
+    def attr(self, name):
+        """Element kind of self.<name> from its append sites."""
+        if name in self._attr:
+            return self._attr[name]
+        self._attr[name] = "?"
+        k = None
+        for mname, f in self.methods.items():
+            for c in walk_local(f):
+                if isinstance(c, ast.Call) and isinstance(c.func, ast.Attribute) and c.func.attr == "append" and path_of(c.func.value) == f"self.{name}" and c.args:
+                    kk = self.kind(f, c.args[0], {})
+                    k = kk if k is None else self.merge(k, kk)
+        self._attr[name] = ("list", k) if k is not None else "?"
+        return self._attr[name]
+
+    def key(self, name):
+        """Kind of values stored under a constant dict key anywhere in the class."""
+        if name in self._keys:
+            return self._keys[name]
+        self._keys[name] = "?"
+        k = None
+        for mname, f in self.methods.items():
+            for n in walk_local(f):
+                if isinstance(n, ast.Dict):
+                    for kk, vv in zip(n.keys, n.values):
+                        if isinstance(kk, ast.Constant) and kk.value == name:
+                            x = self.kind(f, vv, {})
+                            k = x if k is None else self.merge(k, x)
+                if isinstance(n, ast.Assign):
+                    for t in n.targets:
+                        if last_key(t) == name:
+                            x = self.kind(f, n.value, {})
+                            k = x if k is None else self.merge(k, x)
+        self._keys[name] = k or "?"
+        return self._keys[name]
+
+    def bind(self, f, target, k, env):
+        if isinstance(target, ast.Name):
+            env[target.id] = k
+        elif isinstance(target, (ast.Tuple, ast.List)):
+            for i, t in enumerate(target.elts):
+                sub = "?"
+                if isinstance(k, tuple) and k[0] == "tuple" and i < len(k[1]):
+                    sub = k[1][i]
+                self.bind(f, t, sub, env)
+
+    def kind(self, f, e, env, depth=0):
+        if depth > 12:
+            return "?"
+        K = lambda x, en=env: self.kind(f, x, en, depth + 1)
+        if isinstance(e, ast.Attribute):
+            if e.attr == "path_number":
+                return "int"
+            if is_self_attr(e):
+                return self.attr(e.attr)
+            return "?"
+        if isinstance(e, ast.Constant):
+            return "str" if isinstance(e.value, str) else ("int" if isinstance(e.value, int) and not isinstance(e.value, bool) else "?")
+        if isinstance(e, ast.Name):
+            if e.id in env:
+                return env[e.id]
+            fl = flow_of(f)
+            if not fl.cfg.nodes_of(e):
+                return "?"
+            k = None
+            for kind, node, at, extra in fl.sources(e, fl.cfg.node_of(e)):
+                if kind == "expr":
+                    kk = K(node, {})
+                elif kind == "iter":
+                    kk = self.elem(K(node.value, {}))
+                    for i in node.index:
+                        kk = kk[1][i] if isinstance(kk, tuple) and kk[0] == "tuple" and i < len(kk[1]) else "?"
+                elif kind == "unpack":
+                    kk = K(node.value, {})
+                    for i in node.index:
+                        kk = kk[1][i] if isinstance(kk, tuple) and kk[0] == "tuple" and i < len(kk[1]) else "?"
+                else:
+                    kk = "?"
+                k = kk if k is None else self.merge(k, kk)
+            return k or "?"
+        if isinstance(e, ast.Tuple):
+            return ("tuple", tuple(K(x) for x in e.elts))
+        if isinstance(e, ast.List):
+            k = None
+            for x in e.elts:
+                k = K(x) if k is None else self.merge(k, K(x))
+            return ("list", k or "?")
+        if isinstance(e, (ast.ListComp, ast.GeneratorExp, ast.SetComp)):
+            env2 = dict(env)
+            for g in e.generators:
+                self.bind(f, g.target, self.elem(self.kind(f, g.iter, env2, depth + 1)), env2)
+            return ("list", self.kind(f, e.elt, env2, depth + 1))
+        if isinstance(e, ast.Subscript):
+            if isinstance(e.slice, ast.Constant) and isinstance(e.slice.value, str):
+                return self.key(e.slice.value)
+            base = K(e.value)
+            if isinstance(e.slice, ast.Slice):
+                return base
+            if isinstance(base, tuple) and base[0] == "tuple":
+                try:
+                    i = ast.literal_eval(e.slice)
+                    return base[1][i]
+                except Exception:
+                    return "?"
+            return self.elem(base)
+        if isinstance(e, ast.Call):
+            fn = dotted(e.func)
+            if fn == "str":
+                return "str"
+            if fn == "int":
+                return "int"
+            if fn in ("list", "tuple", "sorted", "set", "reversed") and e.args:
+                k = K(e.args[0])
+                return k if isinstance(k, tuple) and k[0] == "list" else "?"
+            if fn == "zip":
+                return ("list", ("tuple", tuple(self.elem(K(a)) for a in e.args)))
+            if fn == "enumerate" and e.args:
+                return ("list", ("tuple", ("idx", self.elem(K(e.args[0])))))
+            if is_self_attr(e.func) and e.func.attr in self.methods:
+                return self.ret(e.func.attr)
+            return "?"
+        return "?"
+
+
+def r38(ctx, methods):
+    rid = "R-3.8"
+    kinds = _Kinds(ctx.tree, methods)
+    n = 0
+    for name, f in methods.items():
+        for c in walk_local(f):
+            if isinstance(c, ast.Compare) and len(c.ops) == 1 and isinstance(c.ops[0], (ast.In, ast.NotIn)):
+                # comprehension-bound names need their environment
+                env = {}
+                par = getattr(c, "_parent", None)
+                chain = []
+                while par is not None and par is not f:
+                    chain.append(par)
+                    par = getattr(par, "_parent", None)
+                for node in reversed(chain):
+                    if isinstance(node, (ast.ListComp, ast.GeneratorExp, ast.SetComp)):
+                        for g in node.generators:
+                            kinds.bind(f, g.target, kinds.elem(kinds.kind(f, g.iter, env)), env)
+                left = kinds.kind(f, c.left, env)
+                right = kinds.kind(f, c.comparators[0], env)
+                el = kinds.elem(right)
+                if left in ("int", "str") and el in ("int", "str"):
+                    n += 1
+                    if left != el:
+                        ctx.bad(rid, c,
+                                f"{name}: membership test compares a path number in {left} form with a collection of path numbers in {el} form: it can never match, so a busy path is treated as idle (or vice versa)",
+                                construct=short(c, 80))
+                    else:
+                        ctx.ok(rid, c, f"{name}: path-number membership test compares {left} with {el}")
+    if n == 0:
+        raise AnalysisError("R-3.8: no path-number membership test could be typed")
+
+
 def run(ctx):
+    ctx.rule("R-3.8", "busy-path membership tests compare path numbers in the same representation (int vs their str form in the in-flight record)", floor=3)
     ctx.rule("R-3.1", "who may write the busy flags: __init__ and acquire/release stores only", floor=3)
     ctx.rule("R-3.2", "acquire (release) store dominated by a raising check that the flag was 0 (1)", floor=2)
     ctx.rule("R-3.3", "issuers acquire every ensemble they hand out on every path, after the swap into the slot", floor=6)
@@ -516,6 +721,7 @@ def run(ctx):
     ctx.attempt(r35, ctx, rel_funcs, methods)
     ctx.attempt(r36, ctx)
     ctx.attempt(r37, ctx, methods)
+    ctx.attempt(r38, ctx, methods)
 
 
 VARIANTS = [
@@ -540,6 +746,9 @@ VARIANTS = [
     B("c03-shared-worker-folder", REPEX, "w_folder = os.path.join(os.getcwd(), f\"worker{md_items['pin']}\")", "w_folder = os.path.join(os.getcwd(), \"worker\")", "R-3.7", control=True),
     B("c03-pin-constant", REPEX, 'md_items.update({"pin": self.cworker})', 'md_items.update({"pin": 0})', "R-3.7"),
     B("c03-exe-dir-cwd", REPEX, 'md_items["picked"][ens_num]["exe_dir"] = md_items["w_folder"]', 'md_items["picked"][ens_num]["exe_dir"] = os.getcwd()', "R-3.7"),
+    B("c03-locked-paths-from-record", REPEX, "        locks = [\n            t0.path_number\n            for t0, l0 in zip(self._trajs[:-1], self._locks[:-1])\n            if l0\n        ]\n        return locks", "        return [pnum for _, pnums in self.locked for pnum in pnums]", "R-3.8", control=True, why="seeded C03_a"),
+    B("c03-finished-job-int-lookup", REPEX, "                if str(pn_old) in lock[1]:", "                if pn_old in lock[1]:", "R-3.8"),
+    K("c03-keep-locked-paths-int-from-record", REPEX, "        locks = [\n            t0.path_number\n            for t0, l0 in zip(self._trajs[:-1], self._locks[:-1])\n            if l0\n        ]\n        return locks", "        return [int(pnum) for _, pnums in self.locked for pnum in pnums]"),
     K("c03-keep-inline-lock", REPEX, "        self.swap(traj, ens)\n        self.lock(ens)\n        return self._trajs[ens]", "        self.swap(traj, ens)\n        self.lock(ens)\n        chosen = self._trajs[ens]\n        return chosen"),
     K("c03-keep-assert-as-if-raise", REPEX, "        assert self._locks[ens] == 0\n", "        if self._locks[ens] != 0:\n            raise AssertionError(\"ensemble is busy\")\n"),
     K("c03-keep-idle-test-eq-form", REPEX, "            (ens == self._offset and not self._locks[self._offset - 1])\n", "            (ens == self._offset and self._locks[self._offset - 1] == 0)\n"),
